@@ -82,8 +82,12 @@ def build_wrapper(case):
 
 
 def snap(w):
+    """everything observable about a wrapper: voxel data, the image affine, the header as stored (both transforms with
+    their codes, dim_info, zooms, data type — `bytes(header.structarr)`), the extension content, the shape"""
+    hdr = w.nii_img.header
     return (np.asanyarray(w.nii_img.dataobj).tobytes(), w.nii_img.affine.tobytes(),
-            json.dumps(w.meta_ext._content, default=str), tuple(w.nii_img.shape))
+            json.dumps(w.meta_ext._content, default=str), tuple(w.nii_img.shape),
+            hdr.structarr.tobytes(), np.asarray(hdr.get_best_affine()).tobytes())
 
 
 def img_matches(w, full_affine=True):
